@@ -9,10 +9,8 @@ package cli
 //@ ensures[ok]  (err == nil) <==> (len(bz) <= 32)
 //@ ensures[pad] err == nil ==> out == leftPad32(bz)
 
-// A requires tagged C20 on an entry point is a documented gap: the C20 check drops it and reports what then fails.
 //@ func parseAddress(address) (out, err)
 //@ serves C20
-//@ requires[C20.F3] len(address) >= 2
 //@ ensures[hex]    hasPrefix(address, "0x") ==> ((err == nil) <==> (len(fromHex(address)) <= 32))
 //@ ensures[hexpad] hasPrefix(address, "0x") && err == nil ==> out == leftPad32(fromHex(address))
 //@ ensures[b58]    !hasPrefix(address, "0x") ==> ((err == nil) <==> (len(base58dec(address)) <= 32))
